@@ -134,16 +134,11 @@ partial def jsProps : JSProps → List (Str × JS)
   | .nil => []
   | .cons k j ps => (k, j) :: jsProps ps
 
-/-- does the document admit `null` on its face (so that a union built from it meets the nil path) -/
-partial def admitsNull : JS → Bool
-  | .bool b => b
-  | .node kws =>
-    let ks := kwList kws
-    let names := ks.map kwName
-    if names.any (fun n => ["allOf", "anyOf", "oneOf", "const", "enum", "$ref"].contains n) then false
-    else match ks.filterMap (fun k => match k with | .type t => some [t] | .types ts => some ts | _ => none) with
-      | [] => true
-      | ts :: _ => ts.contains .null
+/-- the schema produced for the document admits nil (so that a union built from it meets the nil path) -/
+def admitsNull (j : JS) : Bool :=
+  match fromJS rejects false j with
+  | .ok s => s.acceptsNull
+  | .error _ => false
 
 mutual
 partial def why : JS → List String
@@ -173,10 +168,17 @@ partial def why : JS → List String
     ++ (if winner.isNone && (stray .string forString || (stray .number forNumber && stray .integer forNumber)
           || stray .array forArray || stray .object forObject) then ["keywords-without-type-ignored"] else [])
     ++ (if types.contains .integer then ["integer-type"] else [])
+    ++ (if types.contains .integer && ks.any (fun k => match k with
+          | .minimum q => q % 4 != 0 | .maximum q => q % 4 != 0 | .exclusiveMinimum q => q % 4 != 0
+          | .exclusiveMaximum q => q % 4 != 0 | .multipleOf q => q % 4 != 0 | _ => false)
+        then ["integer-bound-truncated"] else [])
     ++ (if decide (types.length > 1) && types.contains .null then ["nullable-union"] else [])
     ++ (if has "prefixItems" then ["tuple-items-all-required"] else [])
     ++ (if hasProps && propKeys.any (fun k => !req.contains k) then ["optional-property-accepts-null"] else [])
-    ++ (if !hasProps && has "additionalProperties" && !req.isEmpty then ["required-without-property"] else [])
+    ++ (if (!hasProps && has "additionalProperties" && !req.isEmpty)
+          || (hasProps && req.any (fun k => !propKeys.contains k)
+              && ks.any (fun k => match k with | .additionalProperties (.bool false) => true | _ => false))
+        then ["required-without-property"] else [])
     ++ (if knownFmt && ["minLength", "maxLength", "pattern"].any has then ["format-siblings-dropped"] else [])
     ++ (if ks.any (fun k => match k with | .enum vs => vs.contains .null | _ => false)
         then ["nullable-union"] else [])
@@ -300,6 +302,25 @@ def inFragment (d : JS) : Bool × Bool :=
   | some j => (good j, good j && Gozod.C11.rt j)
   | none => (false, false)
 
+/-- mirrors harness `intOnly`: numbers of the instance can only meet integer schemas. -/
+partial def intOnly : JS → Bool × Bool
+  | .bool b => (!b, false)
+  | .node kws =>
+    let ks := kwList kws
+    let names := ks.map kwName
+    if ks.any (fun k => match k with | .const (.num _) => true | .enum vs => vs.any (fun p => match p with | .num _ => true | _ => false) | _ => false)
+    then (false, false)
+    else if names.any (fun n => ["const", "enum"].contains n) then (true, false)
+    else if names.any (fun n => ["$ref", "anyOf", "oneOf", "allOf", "not", "format"].contains n)
+            || ks.any (fun k => match k with | .other _ => true | _ => false) then (false, false)
+    else
+    let types := (ks.filterMap (fun k => match k with | .type t => some [t] | .types ts => some ts | _ => none)).headD []
+    if types.isEmpty || types.contains .number || types.contains .object then (false, false) else
+    let subs := (ks.filterMap (fun k => match k with | .items j => some [j] | .prefixItems js => some (jsList js) | _ => none)).flatten
+    let rs := if types.contains .array then subs.map intOnly else []
+    let okArr := !types.contains .array || names.contains "items"
+    (okArr && rs.all (·.1), types.contains .integer || rs.any (·.2))
+
 def handle : List String → String
   | ["kw", k] =>
     match Gozod.Gen.keywordTable.find? (fun r => r.kw == k) with
@@ -323,7 +344,8 @@ def handle : List String → String
           let rs := (if inEq && inst then ["IN-EQ"] else []) ++ (if inRt && inst then ["IN-RT"] else [])
             ++ (if inEq && inst && !(rs0.all (fun r => r == "open-object-closed")) then ["INCOHERENT"] else []) ++ rs0
           b2s (acceptsDecoded s x) ++ " " ++ b2s (jsValid d x) ++ " "
-            ++ (if usesFormat d then "~" else b2s (jsValid (toDoc s) x))
+            ++ (if usesFormat d then "~" else b2s (jsValid (toDoc s) x)) ++ " "
+            ++ (if (intOnly d).1 && (intOnly d).2 then b2s (accepts s x) else "~")
             ++ "\t" ++ ",".intercalate rs
         | .error _ => "conversion-failed"
       | _ => "bad-op"
